@@ -6,6 +6,10 @@
 import sys, os, re, json, subprocess, glob, shutil, tempfile
 wt = sys.argv[1]
 allprops = len(sys.argv) > 2 and sys.argv[2] == 'all'
+# optional: SEED_ONLY=<regex over seed names> restricts the run, SEED_OUT=<file> receives the table rows
+# (several instances on different worktrees can then share the work; rows are merged by seed_matrix_par.sh)
+only = os.environ.get('SEED_ONLY')
+outfile = os.environ.get('SEED_OUT', '/verif/seeded/MATRIX.md')
 props = ['C%02d' % i for i in range(1, 21)]
 out = tempfile.mkdtemp(prefix='seedmatrix_')
 shutil.copy('/verif/known_findings.txt', out)
@@ -13,6 +17,8 @@ rows = []
 for d in sorted(glob.glob('/verif/seeded/C*_*')):
     name = os.path.basename(d)
     own = name.split('_')[0]
+    if only and not re.search(only, name):
+        continue
     subprocess.run(['git', '-C', wt, 'checkout', '-q', '--', '.'], check=True)
     r = subprocess.run(['git', '-C', wt, 'apply', d + '/patch.diff'], capture_output=True, text=True)
     if r.returncode != 0:
@@ -35,8 +41,9 @@ for d in sorted(glob.glob('/verif/seeded/C*_*')):
     other = '; '.join(f"{', '.join(v)}" for k, v in caught.items() if k != own)
     rows.append((name, title, ownr + (' · also ' + other if other else '')))
     print(name, ownr, other, flush=True)
-with open('/verif/seeded/MATRIX.md', 'w') as f:
-    f.write('| seed | change | reported by |\n|---|---|---|\n')
+with open(outfile, 'w') as f:
+    if not only:
+        f.write('| seed | change | reported by |\n|---|---|---|\n')
     for r in rows:
         f.write('| %s | %s | %s |\n' % (r[0], r[1].replace('|', '/'), r[2]))
 shutil.rmtree(out)
